@@ -65,7 +65,7 @@ static void prop_truthful(Tape &t, Ctx &c) {
         for (ptrdiff_t i = 0; i < n; ++i) x0[i] = xt[i] + amp * xm * p[i] / (pm > 0 ? pm : 1);
     }
     double r0 = static_cast<double>(true_relres(A, f, x0));
-    double G = std::max(1.0, r0);
+    double G = std::max(1.0, r0); // recomputed below when another matrix is solved
 
     // ---- configuration
     bool amg_class = !t.chance(1, 4);
@@ -80,8 +80,35 @@ static void prop_truthful(Tape &t, Ctx &c) {
     sc.maxiter = mi_mode == 0 ? static_cast<unsigned>(t.u(1, 20)) : mi_mode == 1 ? static_cast<unsigned>(t.u(0, 200)) : mi_mode == 2 ? 100u : static_cast<unsigned>(t.u(0, 3));
     if (sc.maxiter == 0) sc.check_after = false; // with maxiter = 0 check_after returns the placeholder 2 eps by construction
     double tol_drawn = t.logu(1e-12, 1e-2);
+    // ---- call form (read last so that older saved tapes keep their meaning): (i) solve(rhs, x) with the setup matrix, or
+    // (ii) solve(A2, rhs, x), documented for slowly changing coefficients: the preconditioner stays the one built for A, the
+    // system solved is A2 = same pattern, every edge weight scaled by a factor in [0.5, 2] (symmetric in (i,j)), row sums kept
+    // or enlarged by a diagonal shift: still a (row) diagonally dominant M-matrix of the generated family.
+    int call_mode = static_cast<int>(t.u(0, 3)); // 0,1: (i); 2: (ii) edge weights; 3: (ii) edge weights + diagonal shift
+    uint64_t pseed = static_cast<uint64_t>(t.u(0, 0xffffffffLL));
+    const bool other = call_mode >= 2;
+    Csr<double> A2 = S.A;
+    if (other) {
+        auto h01 = [&](uint64_t a, uint64_t b) { uint64_t h = (a * 0x9E3779B97F4A7C15ULL) ^ ((b + pseed) * 0xBF58476D1CE4E5B9ULL); h ^= h >> 29; h *= 0x94D049BB133111EBULL; h ^= h >> 32; return static_cast<double>(h & 0xffffff) / 16777216.0; };
+        for (ptrdiff_t i = 0; i < n; ++i) {
+            double add = 0; ptrdiff_t dpos = -1;
+            for (ptrdiff_t j = A2.ptr[i]; j < A2.ptr[i + 1]; ++j) {
+                ptrdiff_t col = A2.col[j];
+                if (col == i) { dpos = j; continue; }
+                double g = std::exp(std::log(4.0) * h01(static_cast<uint64_t>(std::min(i, col)), static_cast<uint64_t>(std::max(i, col))) - std::log(2.0)); // in [0.5, 2]
+                double nv = A2.val[j] * g; add += std::abs(nv) - std::abs(A2.val[j]); A2.val[j] = nv;
+            }
+            if (dpos >= 0) { A2.val[dpos] += add; if (call_mode == 3) A2.val[dpos] *= 1.0 + h01(static_cast<uint64_t>(i), 0x51ed27ULL); }
+        }
+    }
+    const Csr<double> &As = other ? A2 : S.A;             // the system that is solved
+    const Mat Asd = other ? to_eigen(A2) : S.dense;
+    const double kappaS = other ? kappa1_dense(A2) : S.kappa1;
+    if (other) { r0 = static_cast<double>(true_relres(As, f, x0)); G = std::max(1.0, r0); }
+    c.label(other ? "call:solve(A2,rhs,x)" : "call:solve(rhs,x)");
+    if (other) c.label(xkind >= 2 ? "A2:x0!=0" : "A2:x0==0");
 
-    c.desc << "truthful " << S.g.family << " n=" << n << " nnz=" << A.nnz() << " contrast=" << S.mi.contrast << " aniso=" << S.mi.aniso << " pe=" << S.pe << (S.shifted ? " +shift" : "")
+    c.desc << (other ? "[solve(A2,f,x), kappa1(A2)=" + std::to_string(kappaS) + "] " : "") << "truthful " << S.g.family << " n=" << n << " nnz=" << A.nnz() << " contrast=" << S.mi.contrast << " aniso=" << S.mi.aniso << " pe=" << S.pe << (S.shifted ? " +shift" : "")
            << " kappa1=" << S.kappa1 << " f=" << fkind << " x0=" << xkind << " r0=" << r0 << " | " << (amg_class ? "amg " + cfg.str() : std::string("relaxation ") + relax_name[cfg.relax]) << " A=" << dump_small(A, 6);
     c.label(std::string("solver:") + solver_name[sc.type]);
     if (sc.has_pside()) c.label(sc.left ? "pside:left" : "pside:right");
@@ -98,7 +125,7 @@ static void prop_truthful(Tape &t, Ctx &c) {
     // column by column from a preconditioner built with the same parameters.
     ptree pprm; if (amg_class) cfg.put_amg(pprm, ""); else { pprm.put("class", "relaxation"); cfg.put_relax(pprm, ""); }
     auto Acrs = to_crs<double>(A);
-    double K = S.kappa1, nB1 = 1, eta = 0; size_t levels = 1;
+    double K = kappaS, nB1 = 1, eta = 0; size_t levels = 1;
     // eta: relative accuracy with which the preconditioner is applied, measured as the linearity defect
     // ||P(3 v) - 3 P(v)|| / ||P(3 v)|| and ||B v - P(v)|| / ||P(v)|| on two probe vectors.  A few u for a numerically stable
     // cycle; hierarchies with huge, mutually cancelling transfer operators (emin on non-symmetric matrices: 5e-4) apply
@@ -125,10 +152,10 @@ static void prop_truthful(Tape &t, Ctx &c) {
             if (all_finite(B)) probe(P0, B);
         } else { amgcl::runtime::preconditioner<Backend> P0(*Acrs, pprm); B = extract_operator(P0, n); if (all_finite(B)) probe(P0, B); }
         if (all_finite(B)) {
-            Mat AB = S.dense * B;
+            Mat AB = Asd * B; // B belongs to the setup matrix, the recursions run on A2 B
             Eigen::PartialPivLU<Mat> lab(AB);
             Mat ABi = lab.inverse();
-            double nA = S.dense.cwiseAbs().colwise().sum().maxCoeff(), nB = B.cwiseAbs().colwise().sum().maxCoeff();
+            double nA = Asd.cwiseAbs().colwise().sum().maxCoeff(), nB = B.cwiseAbs().colwise().sum().maxCoeff();
             double nABi = all_finite(ABi) ? ABi.cwiseAbs().colwise().sum().maxCoeff() : std::numeric_limits<double>::infinity();
             K = std::max(K, nA * nB * std::max(1.0, nABi)); nB1 = nB;
         } else precond_finite = false;
@@ -139,7 +166,7 @@ static void prop_truthful(Tape &t, Ctx &c) {
     double ueff = eta > 1e3 * U ? eta : U;
     if (ueff > U) c.label("precond-unstable");
     c.label("levels=" + std::to_string(std::min<size_t>(levels, 5)));
-    c.label(bucket(K / S.kappa1, {2, 10, 100, 1e4}, "K/kappa1"));
+    c.label(bucket(K / kappaS, {2, 10, 100, 1e4}, "K/kappa1"));
     double tol_floor = 20.0 * ALLOW_C * ueff * K * (sc.maxiter + 2.0) * G * (sc.is_left() ? std::max(1.0, nB1) : 1.0);
     sc.tol = std::min(0.5, std::max(tol_drawn, tol_floor));
     c.desc << " | K=" << K << " | " << sc.str();
@@ -148,10 +175,12 @@ static void prop_truthful(Tape &t, Ctx &c) {
     std::vector<double> x = x0;
     size_t iters = 0; double reported = 0;
     std::unique_ptr<AmgSolver> sa; std::unique_ptr<RelSolver> sr;
+    std::shared_ptr<amgcl::backend::crs<double>> A2crs;
     try {
         if (amg_class) { cfg.put_amg(prm, "precond"); sa.reset(new AmgSolver(*Acrs, prm)); }
         else { prm.put("precond.class", "relaxation"); cfg.put_relax(prm, "precond"); sr.reset(new RelSolver(*Acrs, prm)); }
-        std::tie(iters, reported) = amg_class ? (*sa)(f, x) : (*sr)(f, x);
+        if (other) { A2crs = to_crs<double>(A2); std::tie(iters, reported) = amg_class ? (*sa)(*A2crs, f, x) : (*sr)(*A2crs, f, x); }
+        else std::tie(iters, reported) = amg_class ? (*sa)(f, x) : (*sr)(f, x);
     } catch (const std::runtime_error &e) { c.label(std::string("solve-threw:") + e.what()); return; } // breakdown: nothing is returned, nothing is claimed
 
     // ---- (c) iteration budget
@@ -160,7 +189,7 @@ static void prop_truthful(Tape &t, Ctx &c) {
     c.label(bucket(static_cast<double>(iters), {1, 2, 10, 50}, "iters"));
 
     // ---- (a) truthfulness
-    Res<double> tr = residual_ld(A, f, x);
+    Res<double> tr = residual_ld(As, f, x);
     double truth = static_cast<double>(tr.rel);
     bool left = sc.is_left();
     if (left && finite_vec(tr.r)) {
@@ -194,11 +223,11 @@ static void prop_truthful(Tape &t, Ctx &c) {
             ptree pk; sk.put(pk, "solver");
             std::vector<double> y = x0; size_t ik; double rk;
             try {
-                if (amg_class) { cfg.put_amg(pk, "precond"); AmgSolver s2(*Acrs, pk); std::tie(ik, rk) = s2(f, y); }
-                else { pk.put("precond.class", "relaxation"); cfg.put_relax(pk, "precond"); RelSolver s2(*Acrs, pk); std::tie(ik, rk) = s2(f, y); }
+                if (amg_class) { cfg.put_amg(pk, "precond"); AmgSolver s2(*Acrs, pk); std::tie(ik, rk) = other ? s2(*A2crs, f, y) : s2(f, y); }
+                else { pk.put("precond.class", "relaxation"); cfg.put_relax(pk, "precond"); RelSolver s2(*Acrs, pk); std::tie(ik, rk) = other ? s2(*A2crs, f, y) : s2(f, y); }
             } catch (const std::runtime_error &) { continue; }
             if (std::isfinite(rk)) peak = std::max(peak, rk / unit);
-            if (env_flag("VF_C01_TRACE")) std::cerr << "TRACE history k=" << k << " iters=" << ik << " reported=" << rk << " true=" << static_cast<double>(true_relres(A, f, y)) << "\n";
+            if (env_flag("VF_C01_TRACE")) std::cerr << "TRACE history k=" << k << " iters=" << ik << " reported=" << rk << " true=" << static_cast<double>(true_relres(As, f, y)) << "\n";
         }
         c.label(bucket(peak / G, {2, 100, 1e4}, "peak/G"));
         allow = ALLOW_C * ueff * K * (iters + 2.0) * peak * unit + 64.0 * U;
